@@ -2,11 +2,13 @@ SPECIFICATION MSpec
 CONSTANTS
   B = 1
   MaxArr = 4
+  Kinds = {"C", "I", "X"}
   Srcs = {1}
   LevelTriggered = FALSE
   MaxBatches = 2
+  StaleFailFlag = FALSE
   DrainExitsOnEmptyBatch = FALSE
 VIEW mview
-INVARIANTS AtMostOnce OwnSlot Faithful NoStranded BatchBound ExactlyOnce OwnProtocol NoReplyToInvalid
+INVARIANTS AtMostOnce OwnSlot Faithful NoStranded BatchBound ExactlyOnce OwnProtocol NoReplyToInvalid StatsConserve StatsResponses StatsSettled StatsAreTraffic
 PROPERTY Responsive
 CHECK_DEADLOCK FALSE
